@@ -159,10 +159,12 @@ def prove_case(hid, case, timeout_ms, common_impl="py", exclude_regions=(), max_
     """symbolically execute harness `hid` for one concrete case.  Returns a JSON-able dict"""
     t0 = time.time()
     sys.setrecursionlimit(20000)
+    stage = ["registry"]
     try:
         from . import native as _n  # registry loader (imports the contracts modules natively)
         hs = _n.load_all()
         h = hs[hid]
+        stage[0] = "load"
         loader = Loader("c" if getattr(h, "config", "py") == "c" else common_impl)
         mod = loader.load(h.module)
         fv = mod.globals[h.name]
@@ -193,6 +195,7 @@ def prove_case(hid, case, timeout_ms, common_impl="py", exclude_regions=(), max_
             return None
 
         E._witness = None
+        stage[0] = "explore"
         records = E.explore(run_once, max_paths=max_paths)
         # exceptions escaping the harness: obtain a model of that path
         out = {"harness": hid, "case": case_name(case), "paths": len(records), "stats": E.stats,
@@ -232,6 +235,14 @@ def prove_case(hid, case, timeout_ms, common_impl="py", exclude_regions=(), max_
         out["queries"] = sum(r.get("queries", 0) for r in records)
         out["wall"] = round(time.time() - t0, 3)
         return out
-    except Exception:
+    except Exception as ex:
+        if stage[0] == "load":
+            # the repository text (or the harness) could not even be loaded into the VC generator, e.g. a
+            # construct outside the subset at module level: everything in this case is undecided
+            return {"harness": hid, "case": case_name(case), "paths": 0, "stats": {}, "trusted": [],
+                    "contract_uses": {}, "witness": None, "files": [], "checks": {},
+                    "unsupported": ["could not load into the VC generator: %s: %s" % (type(ex).__name__, str(ex)[:300])],
+                    "n_unsupported": 1, "escaped": [], "solver_seconds": 0, "queries": 0,
+                    "wall": round(time.time() - t0, 3)}
         return {"harness": hid, "case": case_name(case), "error": traceback.format_exc(),
                 "wall": round(time.time() - t0, 3)}
